@@ -3,6 +3,7 @@ package main
 // The per-property check: verify every function under contract for the property, discharge, report.
 
 import (
+	"os/exec"
 	"encoding/json"
 	"flag"
 	"fmt"
@@ -292,6 +293,11 @@ func cmdCheck(argv []string) int {
 		}
 		fmt.Printf("VIOLATION property=%s replay=%s obligation=%s status=%s%s\n", *prop, replay, rep.Name, rep.Status, suffix)
 	}
+	if *prop == "C20" && *only == "" {
+		bv, bk := boundedCursor(*tier, known)
+		violations += bv
+		knownHit = append(knownHit, bk...)
+	}
 	if *verbose {
 		for _, rep := range reps {
 			fmt.Printf("  %-14s %-8s %6.2fs %s\n", rep.Status, rep.Solver, rep.Secs, rep.Name)
@@ -475,6 +481,7 @@ func writeEvidence(prop, tier string, seed int, results []*FuncResult, reps []*O
 			"solver_time_s":            solverTime,
 			"known_findings_printed":   known,
 			"known_finding_obligations_excluded_from_the_count": nKnown,
+			"bounded_stand_ins":        boundedInfo,
 			"samples":                  samples,
 		},
 	}
@@ -487,4 +494,102 @@ func max(a, b int) int {
 		return a
 	}
 	return b
+}
+
+// boundedInfo: what the bounded stand-ins of this run covered (evidence; never part of the obligation counts).
+var boundedInfo interface{} = []interface{}{}
+
+// boundedCursor runs the BOUNDED stand-in for the part of C20 outside the engine's reach: the Minter connector's
+// block scan (GetLatestMinterBlockAndNonce) is executed on the real code, with a fake Minter API, for every block
+// history up to a stated size, every consistent persisted cursor and every acknowledged hub nonce; the cursor it
+// returns and persists must be consistent. Its result is reported separately from the proof obligations.
+func boundedCursor(tier string, known *KnownFile) (violations int, knownLines []string) {
+	const name = "C20/B/GetLatestMinterBlockAndNonce/cursor-consistent"
+	blocks := "4"
+	if tier == "thorough" {
+		blocks = "6"
+	}
+	info := map[string]interface{}{"name": name, "kind": "bounded (exhaustive enumeration of a finite space on the real code; NOT a proof, not counted in obligations/discharged)",
+		"bound": "(a) block histories of 1.." + blocks + " blocks with 0..2 bridge events per block, every block boundary as persisted cursor; (b) histories of 150, 250 and 305 blocks (the scan pages by 100) with one bridge event at up to two of the heights 1, 99, 100, 101, 199, 200, 201, 250, 300 and persisted cursors 0, 100, 120; in both families every acknowledged hub nonce 0..first+total; bridge events are multisends from the multisig (deposits and multisig edits take the same path through the cursor logic but are not enumerated)"}
+	boundedInfo = []interface{}{info}
+	fail := func(msg string) (int, []string) {
+		info["result"] = "not run: " + msg
+		fmt.Fprintln(os.Stderr, "ENGINE ERROR bounded cursor check:", msg)
+		fmt.Printf("VIOLATION property=C20 replay=/verif/bounded/c20_cursor_test.go.tmpl obligation=%s status=bounded-check-did-not-run no-failing-input-found\n", name)
+		return 1, nil
+	}
+	mf, err := connectorModfile()
+	if err != nil {
+		return fail(err.Error())
+	}
+	dir := outRoot + "/bounded"
+	os.MkdirAll(dir, 0o755)
+	src, err := os.ReadFile("/verif/bounded/c20_cursor_test.go.tmpl")
+	if err != nil {
+		return fail(err.Error())
+	}
+	testFile := filepath.Join(dir, "c20_cursor_test.go")
+	os.WriteFile(testFile, src, 0o644)
+	target := filepath.Join(repoRoot, "minter-connector", "minter", "zz_bounded_cursor_test.go")
+	ov, _ := json.Marshal(map[string]map[string]string{"Replace": {target: testFile}})
+	ovFile := filepath.Join(dir, "overlay.json")
+	os.WriteFile(ovFile, ov, 0o644)
+	cmd := exec.Command("go", "test", "-modfile="+mf, "-overlay", ovFile, "-vet=off", "-count=1", "-timeout", "900s", "-v", "-run", "TestBoundedCursor", "./minter/")
+	cmd.Dir = filepath.Join(repoRoot, "minter-connector")
+	cmd.Env = append(os.Environ(), "GOFLAGS=-mod=mod", "GOPROXY=off", "GOSUMDB=off", "GOTOOLCHAIN=local", "GOVC_BOUNDED_BLOCKS="+blocks)
+	out, _ := cmd.CombinedOutput()
+	var res struct {
+		Cases        int                        `json:"cases"`
+		Nontrivial   int                        `json:"nontrivial"`
+		Inconsistent int                        `json:"inconsistent"`
+		Classes      map[string]int             `json:"classes"`
+		First        map[string]json.RawMessage `json:"first_of_class"`
+		Sample       json.RawMessage            `json:"sample"`
+	}
+	found := false
+	for _, ln := range strings.Split(string(out), "\n") {
+		if i := strings.Index(ln, "BOUNDED-RESULT "); i >= 0 {
+			if json.Unmarshal([]byte(ln[i+len("BOUNDED-RESULT "):]), &res) == nil {
+				found = true
+			}
+		}
+	}
+	if !found {
+		tail := string(out)
+		if len(tail) > 600 {
+			tail = tail[len(tail)-600:]
+		}
+		return fail("no result line; output ends: " + tail)
+	}
+	info["cases"], info["nontrivial"], info["inconsistent"], info["classes"], info["sample"] = res.Cases, res.Nontrivial, res.Inconsistent, res.Classes, res.Sample
+	info["exhaustive_within_bound"] = true
+	var cls []string
+	for c := range res.Classes {
+		cls = append(cls, c)
+	}
+	sort.Strings(cls)
+	for _, c := range cls {
+		obl := name + "@" + c
+		isKnown := false
+		for _, kf := range known.Findings {
+			if kf.Status == "open" && kf.Property == "C20" && kf.Obligation == obl {
+				isKnown = true
+				msg := fmt.Sprintf("KNOWN-FINDING: property=C20 %s [%s]", kf.What, kf.Obligation)
+				fmt.Println(msg)
+				knownLines = append(knownLines, msg)
+			}
+		}
+		if isKnown {
+			continue
+		}
+		violations++
+		rdir := filepath.Join(outRoot, "C20", "replay")
+		os.MkdirAll(rdir, 0o755)
+		rp := filepath.Join(rdir, "C20_B_cursor-consistent_"+c+".txt")
+		os.WriteFile(rp, []byte(fmt.Sprintf("failed bounded check: %s\nclass: %s (%d of %d cases)\nfirst failing case (input replayed on the real GetLatestMinterBlockAndNonce with a fake Minter API):\n%s\nre-run: the test /verif/bounded/c20_cursor_test.go.tmpl injected into minter-connector/minter with go test -overlay (see govc/check.go boundedCursor)\n", obl, c, res.Classes[c], res.Cases, string(res.First[c]))), 0o644)
+		fmt.Printf("VIOLATION property=C20 replay=%s obligation=%s status=bounded-counterexample\n", rp, obl)
+	}
+	info["result"] = fmt.Sprintf("%d of %d cases inconsistent", res.Inconsistent, res.Cases)
+	fmt.Printf("bounded C20 cursor check (NOT a proof): %d cases (%d with events to scan), %d inconsistent %v\n", res.Cases, res.Nontrivial, res.Inconsistent, res.Classes)
+	return violations, knownLines
 }
